@@ -228,7 +228,7 @@ class Outcome:
 # stages
 
 def stage_edges(out, name, module, constants, invariants, properties, replay_cmd, prop, workers=12, timeout=1800,
-                profiles=("dev", "release"), min_judged=1):
+                profiles=("dev", "release"), min_judged=1, replay=True):
     """TLC model check + edge emission, then replay of all edges in each profile."""
     wd = os.path.join(WORK, out.prop)
     os.makedirs(wd, exist_ok=True)
@@ -245,7 +245,7 @@ def stage_edges(out, name, module, constants, invariants, properties, replay_cmd
     st = {"stage": name, "module": module, "constants": {k: (sorted(v) if isinstance(v, (set, frozenset)) else v) for k, v in constants.items()},
           "tlc_states_generated": r["states"], "tlc_distinct_states": r["distinct"], "tlc_seconds": r["seconds"],
           "invariants": list(invariants), "properties": list(properties), "replay": {}}
-    for prof in profiles:
+    for prof in (profiles if replay else ()):
         res = os.path.join(wd, "%s.%s.json" % (name, prof))
         t0 = time.time()
         rc, o = sh([BIN[prof], replay_cmd, edges, "--prop", prop, "--out", res], timeout=timeout)
@@ -304,7 +304,8 @@ ERR_LINE = re.compile(r'^<<"ERR", (".*")>>$')
 DONE_LINE = re.compile(r'^<<"DONE", (\d+), (\d+)>>$')
 
 
-def validate_traces(out, name, trace_module, trace_cfg, jobs, why_filter=lambda w: True, timeout=1800, stack="1g"):
+def validate_traces(out, name, trace_module, trace_cfg, jobs, why_filter=lambda w: True, timeout=1800, stack="1g",
+                    prop_filter=None, err_filter=None):
     """jobs: list of dicts(label, trace, scenarios, profile, replay). Runs one TLC per trace in parallel.
     Every ERR line whose reason passes `why_filter` becomes a violation carrying the failing run."""
     wd = os.path.join(WORK, out.prop)
@@ -360,7 +361,10 @@ def validate_traces(out, name, trace_module, trace_cfg, jobs, why_filter=lambda 
         # keep a few failing runs per reason; fetch their events in ONE pass over the trace
         kept, per_why = [], {}
         for e in errs:
-            if not why_filter(e["why"]):
+            if prop_filter is not None:
+                if e.get("prop") not in prop_filter:
+                    continue
+            elif not (why_filter(e["why"]) if err_filter is None else err_filter(e)):
                 continue
             per_why[e["why"]] = per_why.get(e["why"], 0) + 1
             if per_why[e["why"]] <= 5:
@@ -368,7 +372,7 @@ def validate_traces(out, name, trace_module, trace_cfg, jobs, why_filter=lambda 
         st["traces"][-1]["rejections_by_reason"] = per_why
         if kept:
             want = {e["run"] for e in kept}
-            scen = [l for l in open(j["scenarios"]) if l.startswith("<<") or l.startswith("{")]
+            scen = [] if j["scenarios"] == j["trace"] else [l for l in open(j["scenarios"]) if l.startswith("<<") or l.startswith("{")]
             events = {r: [] for r in want}
             for l in open(j["trace"]):
                 m = RUN_FIELD.search(l)
@@ -376,7 +380,8 @@ def validate_traces(out, name, trace_module, trace_cfg, jobs, why_filter=lambda 
                     events[int(m.group(1))].append(json.loads(l))
             for e in kept:
                 ops = decode_scn(scen[e["run"] - 1]) if e["run"] - 1 < len(scen) else None
-                out.add_violation({"sig": "%s:%s" % (j.get("sigprefix", name), e["why"]), "why": e["why"], "run": e["run"],
+                subj = next((x.get("subj") for x in events[e["run"]] if x.get("ev") == "reset"), None)
+                out.add_violation({"sig": "%s:%s%s" % (j.get("sigprefix", name), (subj + ":") if subj else "", e["why"]), "why": e["why"], "run": e["run"],
                                    "scenario": ops, "events": events[e["run"]], "label": j["label"], "ty": j.get("ty"),
                                    "rejected_runs_with_this_reason": per_why[e["why"]]},
                                   name, j["profile"], j["replay"])
@@ -436,6 +441,93 @@ def huffman_property(out, q, seed, why_filter):
         os.remove(j)
 
 
+def contract_trace_stage(out, props, q, seed, subjects=None):
+    """impl -> spec: seeded random histories of the real regions validated against TraceContract.tla;
+    only rejections that belong to one of `props` count."""
+    wd = os.path.join(WORK, out.prop)
+    os.makedirs(wd, exist_ok=True)
+    jobs = []
+    for prof in ("dev", "release"):
+        tr = os.path.join(wd, "contract.%s.ndjson" % prof)
+        args = [BIN[prof], "drive", "--seed", str(seed * 100 + 11), "--runs", str(3 if q else 40), "--steps", str(60 if q else 120),
+                "--long", str(1500 if q else 20000), "--out", tr]
+        if subjects:
+            args += ["--subjects", ",".join(sorted(subjects))]
+        rc, o = sh(args, timeout=3000)
+        if rc != 0:
+            log(o[-2000:])
+            raise ToolError("drive failed")
+        jobs.append({"label": prof, "trace": tr, "scenarios": tr, "profile": profile_label(prof), "replay": "contract",
+                     "sigprefix": "contract"})
+    validate_traces(out, "contract-traces", "TraceContract.tla", os.path.join(SPEC, "TraceContract.cfg"), jobs,
+                    why_filter=None, prop_filter=set(props), timeout=3000)
+    for j in glob.glob(os.path.join(wd, "*.ndjson")):
+        os.remove(j)
+
+
+def alloc_property(out, q, seed):
+    wd = os.path.join(WORK, out.prop)
+    os.makedirs(wd, exist_ok=True)
+    jobs = []
+    # the allocator is only counted in the release profile as well: both profiles must obey the ledger
+    for prof in ("dev", "release"):
+        tr = os.path.join(wd, "alloc.%s.ndjson" % prof)
+        rc, o = sh([BIN[prof], "alloc-run", "--seed", str(seed * 100 + 17), "--runs", str(6 if q else 40), "--growth",
+                    str(10 if q else 14), "--out", tr], timeout=3000)
+        if rc != 0:
+            log(o[-2000:])
+            raise ToolError("alloc-run failed")
+        jobs.append({"label": prof, "trace": tr, "scenarios": tr, "profile": profile_label(prof), "replay": "alloc",
+                     "sigprefix": "alloc"})
+    validate_traces(out, "alloc-traces", "TraceAlloc.tla", os.path.join(SPEC, "TraceAlloc.cfg"), jobs, timeout=3000)
+    for j in glob.glob(os.path.join(wd, "*.ndjson")):
+        os.remove(j)
+
+
+def string_alphabet_stage(out):
+    """C04, program-text half: facts scanned from /repo/src checked against spec/StringAlphabet.tla"""
+    wd = os.path.join(WORK, out.prop)
+    os.makedirs(wd, exist_ok=True)
+    sys.path.insert(0, os.path.join(VERIF, "lib"))
+    import scan_api
+    facts = scan_api.scan("/repo")
+    fp = os.path.join(wd, "facts.json")
+    json.dump(facts, open(fp, "w"), indent=1)
+    outp = os.path.join(wd, "alphabet.tlcout")
+    r = run_tlc("StringAlphabet.tla", os.path.join(SPEC, "StringAlphabet.cfg"), outp, os.path.join(wd, "alphabet.meta"),
+                workers=1, timeout=300, env={"FACTS": fp})
+    text = open(outp, errors="replace").read()
+    violated = re.findall(r"Invariant (\w+) is violated", text)
+    st = {"stage": "string-alphabet", "module": "StringAlphabet.tla", "facts": facts, "violated": violated}
+    out.stages.append(st)
+    out.states += 1
+    out.transitions += 1
+    if violated:
+        for inv in violated:
+            out.add_violation({"sig": "alphabet:" + inv, "why": inv, "facts": facts, "path": [], "subj": "program-text"},
+                              "string-alphabet", "source", "alphabet")
+    elif not r["ok"]:
+        log(r["tail"][-2000:])
+        raise ToolError("TLC failed on StringAlphabet.tla")
+    os.remove(outp)
+
+
+def coded_stage(out, q, seed, err_filter, what="coded regions"):
+    """Huffman- and dictionary-coded regions for properties other than C06/C07: the bounded-model scenarios are
+    executed and validated as for C06/C07, but only the rejections selected by `err_filter` count."""
+    c = {"NSlots": 2, "MaxRaw": 1, "MaxMerge": 2, "MaxCoded": 2, "MaxClear": 1, "ItemSel": "quick", "MaxCodeLen": 5, "Emit": True}
+    scn = stage_scenarios(out, "huffman-model", "HuffmanMC.tla", c, HUFF_INV)
+    validate_traces(out, "huffman-traces", "TraceHuffman.tla", os.path.join(SPEC, "TraceHuffman.cfg"),
+                    huffman_jobs(out, "huffman-model", scn, tys=("u8",) if q else ("u8", "u16")), err_filter=err_filter)
+    c = {"NSlots": 2, "MaxGen0": 2, "MaxMerge": 1, "MaxCoded": 2, "MaxClear": 1, "StrSel": "quick", "Emit": True}
+    scn = stage_scenarios(out, "dict-model", "DictMC.tla", c, DICT_INV, timeout=3000)
+    validate_traces(out, "dict-traces", "TraceDict.tla", os.path.join(SPEC, "TraceDict.cfg"), dict_jobs(out, "dict-model", scn, 2),
+                    err_filter=err_filter)
+    wd = os.path.join(WORK, out.prop)
+    for j in glob.glob(os.path.join(wd, "*.ndjson")):
+        os.remove(j)
+
+
 DICT_INV = ["RoundTrip", "RefuseExact", "RefusalNecessary", "DictSane", "CodedCostsOne"]
 
 
@@ -469,11 +561,28 @@ def dictionary_property(out, q, seed):
         os.remove(j)
 
 
+def huffman_cmp_stage(out, q, seed):
+    """raw vs Huffman-encoded items: comparison events of seeded scenarios, validated by TraceHuffman"""
+    wd = os.path.join(WORK, out.prop)
+    tcfg = os.path.join(SPEC, "TraceHuffman.cfg")
+    jobs = []
+    for ty in ("u8", "u16"):
+        g = os.path.join(wd, "cmp.%s.scn" % ty)
+        rc, o = sh([BIN["release"], "huff-gen", "--seed", str(seed * 1000 + (3 if ty == "u8" else 4)), "--count",
+                    str(60 if q else 400), "--ty", ty, "--out", g, "--mode", "cmp"])
+        if rc != 0:
+            raise ToolError("huff-gen failed")
+        jobs += huffman_jobs(out, "cmp", g, tys=(ty,), nslots=3)
+    validate_traces(out, "huffman-cmp-traces", "TraceHuffman.tla", tcfg, jobs, lambda w: w.startswith("cmp"))
+    for j in glob.glob(os.path.join(wd, "*.ndjson")):
+        os.remove(j)
+
+
 # --------------------------------------------------------------------------------------------
 # property table
 
 REGION_INV = ["RoundTrip", "Shaped", "Dense", "StringsValid", "ClearFresh", "MergeFresh", "CollapseExact",
-              "GetExact", "CloneOntoLaw"]
+              "GetExact", "CloneOntoLaw", "OrderLaws", "ReserveItemsSufficient", "ReserveRegionsSufficient"]
 REGION_PROPS = ["AppendOnly", "UsedMonotone"]
 IC_INV = ["Faithful", "LenAgrees", "NoOverflowValue", "StrideExact", "StrideRejectsOnlyBreaks", "StrideRejectIsNoop",
           "CostRule", "Structure"]
@@ -568,19 +677,26 @@ def run_property(prop, tier, seed):
         region_stage(out, "push-clear", prop, allnames, 1, 3 if q else 4, 0, 4 if q else 5, ["push", "clear"])
         region_stage(out, "push-from", prop, subjects_where(cat, lambda e: e["caps"]["push_item"]), 2, 3, 0, 3,
                      ["push", "push_from"])
+        coded_stage(out, q, seed, lambda e: e["why"] in ("push-panicked", "read-failed", "read-differs", "read-back-differs",
+                                                         "merge-panicked", "clear-panicked"))
+        contract_trace_stage(out, ["C01"], q, seed)
     elif prop == "C02":
         region_stage(out, "push-reserve", prop, allnames, 1, 4 if q else 5, 1, 3 if q else 4,
                      ["push", "reserve_items", "reserve_regions"])
         region_stage(out, "two-slots", prop, allnames, 2, 3 if q else 4, 1, 3,
                      ["push", "push_from", "reserve_regions"])
+        coded_stage(out, q, seed, lambda e: e["why"] == "earlier-item-changed")
+        contract_trace_stage(out, ["C02"], q, seed)
     elif prop == "C04":
         names = subjects_where(cat, lambda e: has_string(e["shape"]))
         region_stage(out, "strings", prop, names, 2, 3 if q else 4, 1, 4 if q else 5,
                      ["push", "clear", "clone", "clone_from", "merge", "serde", "push_from"])
+        string_alphabet_stage(out)
     elif prop == "C08":
         region_stage(out, "clear", prop, allnames, 1, 4 if q else 5, 0, 3 if q else 4, ["push", "clear"], equiv=2)
         ic_stage(out, "index-containers", prop, ["vec", "stride", "list", "opt"], "full", 4, 0)
         stack_stage(out, "flatstack", prop, stack_names(), 4 if q else 5, 0, 3, ["copy", "extend", "clear"])
+        coded_stage(out, q, seed, lambda e: e.get("afterclear", False) and not e["why"].startswith("cmp"))
     elif prop == "C03":
         stack_stage(out, "flatstack", prop, stack_names(), 4 if q else 5, 1, 3 if q else 4, FS_OPS_ALL)
     elif prop == "C09":
@@ -594,17 +710,23 @@ def run_property(prop, tier, seed):
         ic_stage(out, "index-containers", prop, ["vec", "stride", "list", "opt"], "full", 4, 1)
         stack_stage(out, "flatstack", prop, stack_names(), 4, 1, 3, ["copy", "extend", "clear", "serde"])
     elif prop == "C10":
-        region_stage(out, "reserve-merge", prop, allnames, 2, 4, 2 if q else 3, 3,
+        region_stage(out, "reserve-merge", prop, allnames, 2, 3 if q else 4, 2, 3,
                      ["push", "clear", "reserve_items", "reserve_regions", "merge"])
         stack_stage(out, "flatstack", prop, stack_names(), 4, 2, 3,
                     ["copy", "extend", "clear", "reserve", "reserve_regions", "with_capacity", "merge_capacity"])
+        # merged coded regions read back what is pushed, within their acceptance contract
+        coded_stage(out, q, seed, lambda e: e["why"] in ("merge-panicked", "read-failed", "read-differs", "read-back-differs",
+                                                         "push-panicked", "ambiguous-input-accepted"))
+        contract_trace_stage(out, ["C10"], q, seed)
     elif prop == "C11":
         names = subjects_where(cat, lambda e: shape_has(e["shape"], "collapse"))
         region_stage(out, "collapse", prop, names, 2, 4 if q else 5, 1, 3 if q else 4,
-                     ["push", "clear", "clone", "merge", "serde"])
+                     ["push", "clear", "clone", "clone_from", "merge", "serde"])
+        contract_trace_stage(out, ["C11"], q, seed, subjects=names)
     elif prop == "C12":
         names = subjects_where(cat, lambda e: e["shape"]["k"] in ("cip", "columns"))
         region_stage(out, "dense", prop, names, 2, 4 if q else 5, 1, 4 if q else 5, ["push", "clear", "merge"])
+        contract_trace_stage(out, ["C12"], q, seed, subjects=names)
     elif prop == "C13":
         names = subjects_where(cat, lambda e: e["caps"]["get"])
         region_stage(out, "get", prop, names, 1, 4, 0, 3 if q else 4, ["push"], queries=["get"])
@@ -612,12 +734,21 @@ def run_property(prop, tier, seed):
         names = subjects_where(cat, lambda e: e["caps"]["push_item"])
         region_stage(out, "into-owned", prop, names, 2, 3, 0, 4 if q else 5, ["push", "push_from"],
                      queries=["clone_onto", "borrow"])
+    elif prop == "C15":
+        names = subjects_where(cat, lambda e: e["caps"]["cmp"])
+        region_stage(out, "cmp", prop, names, 2, 3, 0, 5, ["push"], queries=["cmp"])
+        huffman_cmp_stage(out, q, seed)
     elif prop == "C18":
         names = subjects_where(cat, lambda e: e["caps"]["heap"])
         region_stage(out, "heap", prop, names, 1, 4 if q else 5, 0, 3 if q else 4, ["push", "clear"])
         stack_stage(out, "flatstack", prop, stack_names(), 4, 0, 3, ["copy", "extend", "clear", "from_iter"])
+        contract_trace_stage(out, ["C18"], q, seed)
     elif prop == "C20":
         region_stage(out, "forms", prop, allnames, 2, 3 if q else 4, 0, 3, ["push", "push_from"])
+    elif prop == "C17":
+        names = subjects_where(cat, lambda e: is_structural(e["shape"]))
+        region_stage(out, "ledger-rule", prop, names, 2, 3, 0, 4, ["push", "clear"], min_judged=0, replay=False)
+        alloc_property(out, q, seed)
     elif prop == "C07":
         dictionary_property(out, q, seed)
     elif prop == "C06":
@@ -625,6 +756,21 @@ def run_property(prop, tier, seed):
     else:
         raise ToolError("property %s has no check yet" % prop)
     out.finish()
+
+
+def is_structural(shape):
+    k = shape.get("k")
+    if k in ("owned", "mirror", "vecreg"):
+        return True
+    if k in ("string", "option"):
+        return is_structural(shape["inner"])
+    if k == "result":
+        return is_structural(shape["ok"]) and is_structural(shape["err"])
+    if k == "tuple":
+        return all(is_structural(f) for f in shape["fs"])
+    if k == "slice":
+        return shape["ic"] == "vec" and is_structural(shape["inner"])
+    return False
 
 
 def shape_has_f64(shape):
@@ -645,7 +791,18 @@ def do_replay(prop, path):
     os.makedirs(wd, exist_ok=True)
     if kind in ("huffman", "dictionary"):
         return do_replay_trace(prop, path, r, kind, wd)
-    edge = {"subj": r.get("subj"), "kind": r.get("kind"), "path": r["path"],
+    if kind == "alphabet":
+        out = Outcome(prop, "quick", 0)
+        string_alphabet_stage(out)
+        for v in out.violations:
+            log("violated: %s" % v["why"])
+            log(json.dumps(v["facts"], indent=1)[:3000])
+        if out.violations:
+            log("VIOLATION property=%s replay=%s" % (prop, path))
+            sys.exit(1)
+        log("replay does not reproduce on the current tree")
+        sys.exit(0)
+    edge = {"subj": r.get("subj"), "kind": r.get("kind"), "path": r["path"], "fixed_forms": True,
             "res": r.get("expected", {}).get("res"), "obs": r.get("expected", {}).get("obs")}
     ef = os.path.join(wd, "edge.ndjson")
     open(ef, "w").write(json.dumps(edge) + "\n")
@@ -724,6 +881,12 @@ def main(argv):
     try:
         if argv[0] == "--setup":
             do_setup()
+            import selftest
+            selftest.main_selftest(quick=True)
+            return
+        if argv[0] == "--selftest":
+            import selftest
+            selftest.main_selftest(quick=False)
             return
         prop = argv[0]
         if len(argv) >= 3 and argv[1] == "--replay":
